@@ -516,9 +516,11 @@ def run_session_impl(users, first, events):
         ran_as = cur  # the user logged in when the command arrived (a login command runs under the previous one)
         if ev[0] == 0:
             if ev[1] < len(objs):
-                # Server.user(): del user / logged, set user, current_directory = home_path
+                # Server.user(): del user / logged / rename_from, set user, current_directory = home_path
                 del conn.user
                 del conn.logged
+                del conn.rename_from
+                rn = None
                 conn.user = objs[ev[1]]
                 conn.current_directory = objs[ev[1]].home_path
                 conn.logged = True
@@ -880,7 +882,7 @@ def check_wire(ctx, events, stream="wire"):
 def stream_wire(ctx, xcheck):
     rng = ctx.rng
     n = 1200 if ctx.tier == "thorough" else 120
-    hs = [gen_wire_history(rng) for _ in range(n)]
+    hs = [list(h) for h in WIRE_CORPUS] + [gen_wire_history(rng) for _ in range(n)]
     # fixed shapes: the same request before and after a re-login, for every pair of users and several verbs
     for a in WIRE_USERS:
         for b in WIRE_USERS:
@@ -952,8 +954,12 @@ def run_witness(flavour, base, cwd, s):
 
 
 # wire-level witnesses of the session findings: key -> history on one control connection
+# the former witness of F18 (repaired in /repo 8b539d4: user() drops a pending rename source) stays as a corpus case
+WIRE_CORPUS = [
+    [("USER", "alice", None), ("PASS", "a", None), ("RNFR", "/f", None), ("USER", "dave", None), ("PASS", "d", None), ("RNTO", "/taken", None), ("MLST", "/f", None)],
+    [("USER", "alice", None), ("PASS", "a", None), ("RNFR", "d/g", None), ("USER", "nobody", None), ("USER", "carol", None), ("PASS", "c", None), ("RNTO", "g2", None)],
+]
 WIRE_WITNESSES = {
-    "wire-relogin-rnfr-carried": [("USER", "alice", None), ("PASS", "a", None), ("RNFR", "/f", None), ("USER", "dave", None), ("PASS", "d", None), ("RNTO", "/taken", None)],
     "wire-stor-root-parent-probe": [("USER", "alice", None), ("PASS", "a", None), ("PASV", "", None), (ftpsim.DATACONN, "", None), ("STOR", "/", b"x")],
 }
 
